@@ -328,7 +328,7 @@ class WireCore(object):
             self.frag_reads += 1
         out = bytes(buf[:m])
         del buf[:m]
-        self.clock.advance(1e-6)
+        self.clock.advance(self.cfg.get("frag_delay") or 1e-6)      # frag_delay: every read takes this long (a slow link); always <= the read's timeout
         if not buf:
             self.cur = None
             if s != "foreign":
